@@ -197,6 +197,12 @@ func (r *rdbdriver) GetLocationByMap(ipnet *net.IPNet, mapID []byte, context Con
 	if err != nil {
 		return nil, 0, err
 	}
+	rangePointPrefixLen := len(ipMapRangePointKeyElement) + len(mapID)
+	if len(foundKey) != len(fullKey) || !bytes.Equal(foundKey[:rangePointPrefixLen], fullKey[:rangePointPrefixLen]) {
+		// the closest preceding key is not a range point of this map (the map has no
+		// subnets, or there is no such map): it must not be decoded as one
+		return nil, 0, nil
+	}
 	if len(foundVal) == 0 {
 		return nil, 0, nil // consistent with the return at the end of cdbdriver.go:/GetLocationByMap
 	}
